@@ -151,7 +151,13 @@ LzmaChunk(e) ==
                      /\ LzmaProps(e.props).lc + LzmaProps(e.props).lp <= 4   \* LZMA2's limit
     /\ e.usize \in 1..ChunkUMax
     /\ (e.usize - 1) \div 65536 = e.ctrl % 32         \* the five high size bits live in the control byte
-    /\ e.csize \in RcInit..ChunkCMax
+    /\ e.csize \in RcInit..ChunkCMax                    \* the packed-size field has 16 bits (size - 1): a range-coded
+                                                      \* segment of more than 65536 bytes cannot be an LZMA chunk.
+                                                      \* The field IS the number of range-coded bytes that follow:
+                                                      \* the events tile the file (Chunk: e.len = hdrlen + csize), and
+                                                      \* RangeCoder!XzChunks decodes exactly csize bytes (nothing left,
+                                                      \* code = 0).  An uncompressed chunk may be used for any data of
+                                                      \* 1..65536 bytes; the format does not prescribe the choice.
     /\ e.first = 0 /\ ~e.initff                       \* range coder initialisation bytes
     /\ level' = 0
 
